@@ -14,13 +14,13 @@ NA = {
  "C17": "ssc_to_sm likewise, parameterised by a policy table; a pure function of its arguments.",
 }
 TEXT = {
- "C01": ("exploration", "Seeded editor sessions on an SM simfile (edits through attributes and keys, chart list edits, extra components) with save and restart operations, saves that fail part-way and failing str() of other objects as history, a bystander object; every save is checked against the reference model (strict re-parse equality both ways, token structure, idempotent re-serialisation, auto-detection). Sampling of histories and strings, not proof.", "4 C01"),
- "C02": ("exploration", "Same editor-session simulation on SSC simfiles and charts, including identity hazards (the same or an interned string object assigned to the note data and to other properties) generated as histories; every save/restart checked against the reference model.", "4 C02"),
- "C03": ("exploration", "Seeded MSD texts loaded through every entry point and stream behaviour (short reads, odd buffer sizes, file names of every kind, both facades, iterator / StringIO / TextIO / TextIOWrapper) and compared with a reference loader built on the trusted tokenizer.", "4 C03"),
- "C04": ("exploration", "Stored files damaged by simulated faults (truncation by an earlier kill, flipped / dropped / duplicated / spliced blocks) or merely messy are loaded, saved to the simulated disk, reloaded after a simulated restart and saved again; history oracle over the four steps.", "4 C04"),
- "C05": ("exploration", "Seeded worlds (stored bytes in each code page, neighbours, pre-existing output/backup files), file-name configurations, try_encodings orders, edit scripts, both facades with short reads/writes and odd buffer sizes; whole-disk byte snapshots before/after and the storage event log are judged against reference decoding/loading. Fault-free configuration only, so that no relaxation hides an ordinary bug.", "4 C05"),
- "C06": ("fault_enumeration", "For every sampled scenario (plus a fixed 36-configuration core matrix) every fault point is enumerated, not sampled: each storage call k of the fault-free trace x {EIO, ENOSPC, EACCES, kill, torn write}, err@k followed by err/kill at k+1 / k+2 and eight sampled fault pairs, every body position x 7 exception classes, every unserialisable spoil and an unencodable character in every slot (value, key, chart field, note data, SM extra components); invariants raised from inside the simulated disk while the run proceeds and per-clause oracles afterwards. Scenarios themselves are sampled.", "4 C06"),
- "C18": ("exploration", "Two simulated clients (attribute view, key view) interleaved by the seeded scheduler on one shared object of each kind; after every operation the complete state, every documented attribute, the operation's own outcome, equality and serialisation are compared with a dictionary model.", "4 C18"),
+ "C01": ("exploration", "Seeded editor sessions on an SM simfile (edits through attributes and keys, chart list edits, extra components) with save and restart operations, saves that fail part-way and failing str() of other objects as history, a bystander object, values moved to another key as the same object, chart copies and the same chart object twice, sessions continued on deep / pickle copies; every save is checked against the reference model (strict re-parse equality both ways, token structure, idempotent re-serialisation, auto-detection). Sampling of histories and strings, not proof.", "4 C01"),
+ "C02": ("exploration", "Same editor-session simulation on SSC simfiles and charts, including identity hazards (the same or an interned string object assigned to the note data and to other properties) generated as histories, note data moved between NOTES and NOTES2 as the same object, chart copies, one chart object at two list positions; every save/restart checked against the reference model.", "4 C02"),
+ "C03": ("exploration", "Seeded MSD texts loaded through every entry point and stream behaviour (short reads, odd buffer sizes, file names of every kind, both facades, iterator / StringIO / TextIO / TextIOWrapper, texts with non-normalised Unicode, near-VERSION first keys, blank-only lines) and compared with a reference loader built on the trusted tokenizer.", "4 C03"),
+ "C04": ("exploration", "Stored files damaged by simulated faults (truncation by an earlier kill, flipped / dropped / duplicated / spliced blocks) or merely messy are loaded, saved to the simulated disk, reloaded after a simulated restart (through open() or the class constructors) and saved again; history oracle over the four steps.", "4 C04"),
+ "C05": ("exploration", "Seeded worlds (stored bytes in each code page, neighbours, pre-existing output/backup files), file-name configurations, try_encodings orders, edit scripts, both facades with short reads/writes and odd buffer sizes, names through directory symlinks and genuinely relative names, keyword arguments spelled out with their defaults; whole-disk byte snapshots before/after and the storage event log are judged against reference decoding/loading. Fault-free configuration only, so that no relaxation hides an ordinary bug.", "4 C05"),
+ "C06": ("fault_enumeration", "For every sampled scenario (plus a fixed 36-configuration core matrix) every fault point is enumerated, not sampled: each storage call k of the fault-free trace x {EIO, ENOSPC, EACCES, kill, torn write}, err@k followed by err/kill at k+1 / k+2 and eight sampled fault pairs, every body position x 19 exception objects (classes and values: exit statuses, OSError / UnicodeError kinds, falsy exceptions, the classes a generator-based context manager treats specially), every unserialisable spoil and an unencodable character in every slot (value, key, chart field, note data, SM extra components); invariants raised from inside the simulated disk while the run proceeds and per-clause oracles afterwards. Scenarios themselves are sampled.", "4 C06"),
+ "C18": ("exploration", "Two simulated clients (attribute view, key view) interleaved by the seeded scheduler on one shared object of each kind; after every operation the complete state, every documented attribute, the operation's own outcome, equality and serialisation are compared with a dictionary model; plus a fixed core of all two-step (and read-first three-step) histories over every aliased property from every presence state.", "4 C18"),
  "C19": ("exploration", "Seeded directory trees on the simulated disk with a listing-order adversary (stable or reshuffled permutations), both facades, loader options; discovery results compared with a reference computed from the tree by plain string operations; the same paths rescanned by fresh objects after the tree changed, objects kept alive and re-checked, a storage error at every call of SimfileDirectory.open() (may fail, never another simfile), and a tree changing right after the n-th listing (pairs handed out must stay consistent).", "4 C19"),
  "C20": ("exploration", "Same trees and listing adversary; every asset lookup compared with the set of admissible answers of a reference model, existence on the simulated disk, and stability of repeated lookups under reshuffled listings.", "4 C20"),
 }
@@ -46,7 +46,7 @@ for pid in ["C01","C02","C03","C04","C05","C06","C18","C19","C20"]:
 m={
  "version":1,
  "setup_cmd":"/venv/bin/python -c \"import sys; sys.path.insert(0,'/repo'); import simfile, msdparser, fs; print('ok', simfile.__file__)\"",
- "hooks":{"guard":"SIMFILE_VERIF","enable":"no hooks are needed: the storage, stream and caller seams are arguments of the public API and the native path is reached by replacing two module globals of simfile._private.nativeosfs from outside; the guard name is reserved only",
+ "hooks":{"guard":"SIMFILE_VERIF","enable":"no hooks are needed: the storage, stream and caller seams are arguments of the public API and the native path is reached from outside by replacing the os/io globals of the simfile package and routing the file functions of os/io/builtins/posixpath by path prefix while a run is inside the facade; the guard name is reserved only",
           "baseline_off_cmd":"cd /repo && /venv/bin/python -m pytest -ra -q -p no:cacheprovider --timeout=900 --continue-on-collection-errors",
           "source_commits":[],"add_only":True},
  "engines":[{"name":"simv","path":"simv/","serves_properties":built,"kind_free_text":"own deterministic simulator (stdlib only): SimDisk + SimFS/NativeShim facades, seeded scenario generators, JSON scenarios, reference models, ddmin shrinker, replay, evidence"}],
